@@ -21,7 +21,7 @@ RULE = (
     "(screen hash, replacement kind, model, scorer, n_chunks, batch); non-trivial = >=1 masked row and >=1 observed row"
 )
 ASSUMPTIONS = ["observed values exactly 0 or 1 are outside the interaction model's transform (logit gives +-inf) and are not generated for it", "both members of a pair use the same seed and the same global numpy seed so that only masked values differ"]
-REQUIRED = {"pairs_with_non_default_model_switches": {"quick": 80, "thorough": 1000}, "refusals_checked_for_side_effects": {"quick": 200, "thorough": 2500}, "training_sets_with_values_above_one": {"quick": 40, "thorough": 500}, "two_batch_histories": {"quick": 100, "thorough": 1200}, "cli_pairs": {"quick": 6, "thorough": 40}, "cli_replacement_nan": {"quick": 1, "thorough": 6}, "pairs_compared": {"quick": 250, "thorough": 3000}, "artefacts_compared": {"quick": 1200, "thorough": 15000}, "training_set_checks": {"quick": 250, "thorough": 3000}, "refusals_checked": {"quick": 2000, "thorough": 25000}}
+REQUIRED = {"refusals_of_tiny_negative_values": {"quick": 150, "thorough": 2000}, "pairs_with_non_default_model_switches": {"quick": 80, "thorough": 1000}, "refusals_checked_for_side_effects": {"quick": 200, "thorough": 2500}, "training_sets_with_values_above_one": {"quick": 40, "thorough": 500}, "two_batch_histories": {"quick": 100, "thorough": 1200}, "cli_pairs": {"quick": 6, "thorough": 40}, "cli_replacement_nan": {"quick": 1, "thorough": 6}, "pairs_compared": {"quick": 250, "thorough": 3000}, "artefacts_compared": {"quick": 1200, "thorough": 15000}, "training_set_checks": {"quick": 250, "thorough": 3000}, "refusals_checked": {"quick": 2000, "thorough": 25000}}
 N_PAIRS = {"quick": 640, "thorough": 6400}
 
 
@@ -326,7 +326,7 @@ def run_shard(rec, tier, seed, shard, nshards):
                 if len(A.plates) > 1:
                     cases.append(("masked-rows", lambda: fresh().add_observations(po.invert()) if not po.invert().observation_mask.all() else (_ for _ in ()).throw(ValueError("all observed"))))
             # (b)/(c) negative / NaN observation among the observed rows
-            for bad, val in (("negative", -0.25), ("nan", float("nan"))):
+            for bad, val in (("negative", float(rng.choice([-0.25, -1e-3, -1e-46, -1e-300, -5e-324, -1e300]))), ("nan", float("nan"))):
                 o = kw["observations"].copy()
                 idx = np.flatnonzero(kw["observation_mask"])
                 if m2 == "SparseDrugComboInteraction" and rng.random() < 0.6:
@@ -334,6 +334,8 @@ def run_shard(rec, tier, seed, shard, nshards):
                     idx = np.array(combo) if combo else idx
                 o[int(rng.choice(idx))] = val
                 Sb = Screen(**dict(kw, observations=o))
+                if bad == "negative" and abs(val) < 1e-40:
+                    rec.count("refusals_of_tiny_negative_values")
                 cases.append((bad, lambda Sb=Sb: fresh().add_observations(Sb.subset_observed())))
             for what, f in cases:
                 rec.case(("refusal", m2, what), nontrivial=False)
